@@ -909,6 +909,11 @@ type DeepInstr struct {
 // DeepInstrs lists every instruction of fn, its closures and the unexported repository
 // helpers it calls (transitively, bounded), with frames. Closures share their parent's frame.
 func DeepInstrs(fn *ssa.Function, stop func(*ssa.Function) bool) []DeepInstr {
+	return DeepInstrsEnter(fn, func(f *ssa.Function) bool { return !exportedFunc(f) && (stop == nil || !stop(f)) })
+}
+
+// DeepInstrsEnter is DeepInstrs with an explicit predicate for the callees that are entered.
+func DeepInstrsEnter(fn *ssa.Function, enter func(*ssa.Function) bool) []DeepInstr {
 	var out []DeepInstr
 	var visit func(f *ssa.Function, fr *Frame)
 	visit = func(f *ssa.Function, fr *Frame) {
@@ -916,7 +921,7 @@ func DeepInstrs(fn *ssa.Function, stop func(*ssa.Function) bool) []DeepInstr {
 			for _, ins := range b.Instrs {
 				out = append(out, DeepInstr{ins, fr})
 				if cc, ok := ins.(*ssa.Call); ok {
-					if callee := Followable(cc, fr); callee != nil && !exportedFunc(callee) && (stop == nil || !stop(callee)) {
+					if callee := Followable(cc, fr); callee != nil && enter(callee) {
 						visit(callee, &Frame{Site: cc, Callee: callee, Parent: fr})
 					}
 				}
